@@ -3,7 +3,7 @@ C10, the glue below the layering: the owner of a file is recorded by the lazy (W
 `installPackage` must take whenever the file system can record owners — with or without a package cache.  Fact
 regenerated from pkg/apk/apk/implementation.go on every run; corr:layers builds end to end with the cache on and off.
 -/
-import Apko.Generated.Glue
+import Apko.Generated.GlueLayer
 
 namespace Apko.C10.Glue
 open Apko
